@@ -72,7 +72,7 @@ func runC04(c *Ctx) {
 		c.Check(len(missing) == 0, "leaf-coverage", dist, c.P.Pos(wp.Decl.Pos()), ifElse(len(missing) == 0, fmt.Sprintf("every field of %s is hashed into the leaf (%d committed paths)", leafElemType[dist], len(committed)), fmt.Sprintf("the %s leaf does not commit field(s) %v: an element altered in that field is still accepted as a member", leafElemType[dist], missing)))
 	}
 	c.Min("leaf-coverage", 6)
-	c04LeafHash(c, ge)
+	c04LeafLayout(c, ge)
 	c04Predicate(c, ge, ctors)
 	c04Parents(c, ge, ctors)
 	c04Collection(c, ge, ctors)
@@ -170,7 +170,7 @@ func c04Predicate(c *Ctx, ge *GuardEngine, ctors map[string]string) {
 		for _, alt := range splitPhi(a) {
 			switch {
 			case alt == "const:false":
-			case want.MatchString(alt) || want.MatchString(ge.pv.ExpandAll(alt, wantS)):
+			case want.MatchString(alt) || want.MatchString(ge.pv.ExpandAll(alt, wantS)) || want.MatchString(ge.pv.ExpandAll(c04InlineAccessors(c, ge, alt), wantS)):
 				eqs++
 			default:
 				ok = false
@@ -402,4 +402,77 @@ func firstPos(c *Ctx, h *ssa.BasicBlock) string {
 		}
 	}
 	return ""
+}
+
+// c04InlineAccessors: "v, ok := acc.treeRoot(h)" style accessors — a method of the accumulator with results (T, bool)
+// that returns its value together with true at exactly one return and the zero value with false elsewhere. Where the
+// caller uses result #0 (the root-equality rule looks at the comparison, the tree-exists row separately requires the
+// existence test on the path) it stands for the value returned with true.
+func c04InlineAccessors(c *Ctx, ge *GuardEngine, a string) string {
+	const pfx = "call (consensus.ElementAccumulator)."
+	for n := 0; n < 4; n++ {
+		i := strings.Index(a, pfx)
+		if i < 0 {
+			return a
+		}
+		j := i + len(pfx)
+		k := j
+		for k < len(a) && a[k] != '(' {
+			k++
+		}
+		name := a[j:k]
+		depth, e := 0, -1
+		for m := k; m < len(a); m++ {
+			if a[m] == '(' {
+				depth++
+			} else if a[m] == ')' {
+				depth--
+				if depth == 0 {
+					e = m
+					break
+				}
+			}
+		}
+		if e < 0 || !strings.HasPrefix(a[e+1:], "#0") {
+			return a
+		}
+		fn := c.P.Func("consensus.(*ElementAccumulator)." + name)
+		if fn == nil || fn.Signature.Results().Len() != 2 {
+			return a
+		}
+		args := callArgs(a[i : e+1])
+		env := &Env{params: map[*ssa.Parameter]string{}, freevars: map[*ssa.FreeVar]string{}}
+		for pi, prm := range fn.Params {
+			if pi < len(args) {
+				env.params[prm] = args[pi]
+			}
+		}
+		val, nTrue, okShape := "", 0, true
+		for _, b := range fn.Blocks {
+			ret, isRet := b.Instrs[len(b.Instrs)-1].(*ssa.Return)
+			if !isRet {
+				continue
+			}
+			if len(ret.Results) != 2 {
+				okShape = false
+				continue
+			}
+			k, isK := ret.Results[1].(*ssa.Const)
+			if !isK || k.Value == nil {
+				okShape = false
+				continue
+			}
+			if k.Value.ExactString() == "true" {
+				nTrue++
+				ge.pv.loadCtx = []ssa.Instruction{ret}
+				val = ge.pv.Atom(ret.Results[0], env)
+				ge.pv.loadCtx = nil
+			}
+		}
+		if !okShape || nTrue != 1 || val == "" {
+			return a
+		}
+		a = a[:i] + val + a[e+3:]
+	}
+	return a
 }
